@@ -622,6 +622,9 @@ func c01SmudgeOrder(c *Ctx) {
 			if bi, isB := cc.Call.Value.(*ssa.Builtin); isB && bi.Name() == "append" {
 				return Stop
 			}
+			if strings.HasPrefix(CalleeName(&cc.Call), "slices.Clone") {
+				return Stop
+			}
 		}
 		return Descend
 	}) {
@@ -631,6 +634,22 @@ func c01SmudgeOrder(c *Ctx) {
 		}
 		cc, isCall := l.(*ssa.Call)
 		if !isCall {
+			continue
+		}
+		// library form: a copy of the sorted list, reversed in place before it is used
+		if strings.HasPrefix(CalleeName(&cc.Call), "slices.Clone") && len(cc.Call.Args) == 1 && sorted(cc.Call.Args[0]) {
+			for _, rc := range fn.Blocks {
+				for _, in := range rc.Instrs {
+					if rcc := AsCall(in); rcc != nil && strings.HasPrefix(CalleeName(rcc), "slices.Reverse") && len(rcc.Args) == 1 && Unwrap(rcc.Args[0]) == ssa.Value(cc) {
+						if in.Block().Dominates(at.Block()) {
+							ok = true
+						}
+					}
+				}
+			}
+			if !ok {
+				why = "a copy of the sorted list is handed to the smudge pipe without having been reversed"
+			}
 			continue
 		}
 		bi, isB := cc.Call.Value.(*ssa.Builtin)
